@@ -177,6 +177,22 @@ Proof.
   apply map_ext_in. intros k Hk. apply in_seq in Hk. rewrite app_nth1; auto; lia.
 Qed.
 
+Lemma closure_signs_of : forall n w l, closure n w = Some l -> signs_of l (braid_o w) = map letter_sign w.
+Proof.
+  intros n w l Hcl. pose proof (closure_diag n w l Hcl) as D.
+  unfold signs_of. rewrite (bd_len _ _ _ _ D), <- (map_nth_seq w letter_sign).
+  apply map_ext_in. intros k Hk. apply in_seq in Hk. apply (braid_sgn_at n w l _ D). lia.
+Qed.
+
+(* a closure is consistently oriented by "all strands run downwards" *)
+Theorem closure_oriented_full : forall n w l, closure n w = Some l ->
+  Unresolved l /\ Oriented l (braid_o w) /\ signs_of l (braid_o w) = map letter_sign w.
+Proof.
+  intros n w l H. pose proof (closure_diag n w l H) as D.
+  split; [exact (closure_unresolved n w l _ D)|]. split; [exact (closure_oriented n w l _ D)|].
+  exact (closure_signs_of n w l H).
+Qed.
+
 (* the sign list of a closure: the letters' signs, except that the crossings whose over-strand lies on a
    reversed component (one that never passes under) carry the opposite sign *)
 Theorem closure_signs : forall n w l, closure n w = Some l ->
